@@ -219,6 +219,9 @@ class VFSZip(VFS_Real):
         while len(symlinkinodes) and len(symlinkinodes) != lastsymlinklen:
             lastsymlinklen = len(symlinkinodes)
             newsymlinkinodes = []
+            # Lookups that failed in an earlier pass may succeed now that more
+            # links are resolved: forget the negative results.
+            self.invalid_paths.clear()
             for item in symlinkinodes:
                 if item["dest"][0] == "/":
                     dest = item["dest"][1:]
@@ -230,6 +233,7 @@ class VFSZip(VFS_Real):
                 else:
                     newsymlinkinodes.append(item)
             symlinkinodes = newsymlinkinodes
+        self.invalid_paths.clear()
 
     def _islinkinfo(self, info: zipfile.ZipInfo) -> bool:
         return stat.S_ISLNK(info.external_attr >> 16)
